@@ -637,6 +637,7 @@ def c14(ctx):
     for (alloc, rec) in inits:
         for seq in range(3 if quick else 12):
             cmds.append("reset")
+            cmds.append("ramode %d" % (seq % 2))      # the allocator moves the block / resizes it in place when it can
             cmds.append("hset 0 %d %d" % (alloc, rec))
             for step in range(3):
                 m = rng.choice(ms)
@@ -649,6 +650,7 @@ def c14(ctx):
                 cmds.append("crypt_ra 0 %s %s" % (hx(ph), hx(s)))
             cmds.append("hfree 0")
             nseq += 1
+    cmds.append("ramode 0")
     for m in cfgev["E"]:
         for cnt, pfx in ((0, gen.PREFIX[m]), (0, "$9$"), (99, gen.PREFIX[m])):
             cmds.append("gensalt_ra %s %d - 0" % (hx(pfx) if pfx else "=", cnt))
@@ -2039,6 +2041,12 @@ def c17(ctx):
         cmds.append("des %s %d %d %s %d" % (rb(8).hex(), s, rng.choice((1, 1, 2, 3, 25)), rb(8).hex(), rng.randrange(2)))
     for cnt in (0, 1, 2, 5, 25, 26, 100, 725):
         cmds.append("des %s %d %d %s 0" % (rb(8).hex(), rng.randrange(1 << 24), cnt, "0000000000000000"))
+    # one context keyed twice, starting from junk: degenerate second keys (all zero, parity bits only, all ones) and
+    # salt 0 must fully replace what the first key and salt left behind
+    zero, par, ones = bytes(8), bytes([1] * 8), bytes([0xff] * 8)
+    for k2 in (zero, par, ones, bytes([0x80] * 8), zero, rb(8), rb(8)):
+        for s in (0, 0, 1, 0xffffff, rng.randrange(1 << 24)):
+            cmds.append("desseq %s %s %d %d %s" % (rb(8).hex(), k2.hex(), s, rng.choice((1, 25)), rb(8).hex()))
     ev1 = run_prim(ctx, cmds)
     # the obsolete API: low bit only, 0/1 results, _r vs static, interleaved with crypt calls
     x = ["obj 0 0 0", "obj 1 5 0"]
@@ -2206,6 +2214,9 @@ def c19_script(rng):
     g = []
     for m in gen.METHODS:
         sets = [cheap_setting(m, rng) for _ in range(2)]
+        if m in ("yescrypt", "gost_yescrypt"):
+            # the classic and WORM flavours of the $y$ encoding share code with $7$: they must not depend on scrypt being selected
+            sets += [gen.yparams_full(gen.PREFIX[m], fl, 6, 5) + gen.ysalt(rng, 8) for fl in (".", "/")] + [gen.yparams_full(gen.PREFIX[m], ".", 6, 5, p=2) + gen.ysalt(rng, 8)]
         if m in ("bigcrypt", "descrypt"):
             sets += [gen.salt(rng, 2) + gen.salt(rng, 11), gen.salt(rng, 2) + gen.salt(rng, 22), gen.salt(rng, 2) + gen.salt(rng, 10)]
         for s in sets:
@@ -2368,6 +2379,9 @@ def c08(ctx):
             cmds += [gs_cmd("gensalt_rn", gen.PREFIX[m], c, None), gs_cmd("gensalt_ra", gen.PREFIX[m], c, bytes(rng.randrange(256) for _ in range(24))),
                      gs_cmd("gensalt", gen.PREFIX[m], c, None)]
     cmds += ["preferred", "setkey - 0123456789abcdef 0", "encrypt - 0011223344556677 0 0"]
+    # a working region above the huge-page threshold (32 MiB): its allocation path is different code
+    if "yescrypt" in E:
+        cmds += ["crypt_rn 0 %s %s 32768" % (hx(b"big-region"), hx("$y$jC5$abcd")), "crypt_ra 0 %s %s" % (hx(b"big-region"), hx("$y$jC5$abcd"))]
     ev1 = ctx.run_xcv(cmds)
     ev2 = ctx.run_xcv(["wprot 1"] + cmds)
     measured = {f: set() for f in set(EVENT2FN.values())}
